@@ -41,6 +41,15 @@ Every door to a process is observed, nothing is replaced (the real Popen runs):
     wrapped so that flux.Flux(), Flux.attr_get, flux.job.submit, JobList / JobList.jobs and
     flux.job.cancel(_async) each append a line (door "flux:...").
 
+Cancel requests (every back-end, command line and API): a further family of cases carries `cancel_at` = -1 (the request
+is there before the first pass: made right after run_study stored the study -- `maestro run` wipes an existing output
+directory, so it cannot precede the command -- / before monitor_study in the API path) or k >= 0 (made when the conductor
+goes to sleep after pass k+1: between two passes, or never seen when the run is over by then).  The request is made the way
+`maestro cancel` makes it (Conductor.mark_cancelled: touch <study>/.cancel.lock).  The conductor then calls cancel_study --
+in a dry run too, with an empty job list: clauses (p2)/(p3) still hold (no scancel / bkill / broker cancel, no process at
+all), the run ends CANCELLED (3) when the request was consumed, FINISHED (0) otherwise; the REAL twin with the request
+after pass 1 (jobs just submitted) must record scancel / bkill / flux.job.cancel (the monitor is live).
+
 Clauses.  For each DRY run (VIOLATION otherwise):
   (p1) exit code 0 / status FINISHED, every status.csv row DRYRUN;
   (p2) <run>.cmds.log is empty and <run>.doors.log holds no process entry;
@@ -71,7 +80,7 @@ from harness import common
 QUICK_N, THOROUGH_N = 13, 96
 FAKE_PROGS = ["sbatch", "squeue", "sacct", "scancel", "scontrol", "sinfo", "srun", "salloc", "sacctmgr", "sprio", "sshare",
               "bsub", "bjobs", "bkill", "bhist", "bqueues", "bhosts", "jsrun", "lsrun", "flux"]
-SUBMIT_PROGS, QUERY_PROGS = ("sbatch", "bsub"), ("squeue", "sacct", "bjobs")
+SUBMIT_PROGS, QUERY_PROGS, CANCEL_PROGS = ("sbatch", "bsub"), ("squeue", "sacct", "bjobs"), ("scancel", "bkill")
 FLUX_REAL = ("0.26.0", "0.49.0")          # versions whose status query the fake flux module answers
 
 
@@ -436,8 +445,11 @@ def run_quad(job):
                "E2E_STUDY_DIR": out, "E2E_SNAP_DIR": os.path.join(d, which + ".snap"), "E2E_MAX_POLLS": "60"}
         if case.get("env_flux_uri"):
             env["FLUX_URI"] = "local:///tmp/flux-env/local-0"
+        cat = case.get("cancel_at")
+        if cat is not None:
+            env["C17P_CANCEL_AT"], env["C17P_CANCEL_DIR"] = str(cat), out
+        import subprocess
         if api:
-            import subprocess
             try:
                 p = subprocess.run([e2e.PY, "-m", "harness.props.c17_procs", "api", d, which], cwd=common.VERIF,
                                    env=e2e.base_env(env), text=True, errors="replace", stdout=subprocess.PIPE,
@@ -449,6 +461,8 @@ def run_quad(job):
                 r = json.load(open(os.path.join(d, which + ".result.json")))
                 if "exc" in r:
                     rc, tail = (rc or 1), r["exc"] + " | " + tail
+                elif r.get("status") == "CANCELLED":
+                    rc = rc or 3
                 elif r.get("status") != "FINISHED":
                     rc, tail = (rc or 2), "study status %s | %s" % (r.get("status"), tail)
             except Exception:
@@ -458,13 +472,68 @@ def run_quad(job):
             argv = ["run"] + (["--dry"] if dry else []) + ["-fg", "-y", "-s", e2e.POLL_SLEEP, "--attempts", case["attempts"],
                                                           "--rlimit", case["rlimit"], "--throttle", case["throttle"], "-o", out]
             argv += (["--hashws"] if case["hashws"] else []) + (["--usetmp"] if case["usetmp"] else []) + ["spec.yaml"]
-            rc, tail = e2e.launch("maestro", argv, d, env, stdin_text="", logfile=os.path.join(d, "run.log"))
+            try:
+                p = subprocess.run([e2e.PY, "-m", "harness.props.c17_procs", "cli"] + [str(a) for a in argv], cwd=d,
+                                   env=e2e.base_env(env), input="", text=True, errors="replace", stdout=subprocess.PIPE,
+                                   stderr=subprocess.STDOUT, timeout=150)
+                rc, tail = p.returncode, (p.stdout or "")[-3000:]
+            except subprocess.TimeoutExpired:
+                rc, tail = 124, "timeout"
         try:
             os.rename(os.path.join(d, "ran.log"), os.path.join(d, which + ".ran.log"))      # what THIS run executed
         except OSError:
             pass
         res[which] = {"rc": rc, "tail": tail[-1200:]}
     return res
+
+
+def install_cancel():
+    """C17P_CANCEL_AT = k >= 0: when the conductor goes to sleep after its pass number k+1 (the k-th POLL sleep), the
+    cancel request is made the way `maestro cancel` makes it (Conductor.mark_cancelled: touch <study>/.cancel.lock), so the
+    NEXT loop iteration finds it.  Must run after harness.e2e_launcher was imported and before maestrowf.conductor is."""
+    at, out = os.environ.get("C17P_CANCEL_AT"), os.environ.get("C17P_CANCEL_DIR")
+    if at in (None, "") or int(at) < 0 or not out:
+        return
+    import time
+    inner, poll, st = time.sleep, os.environ.get("E2E_POLL_SLEEP"), {"k": 0}
+
+    def sleep(secs=0, *a, **k):
+        if poll is not None and str(secs) == poll:
+            if st["k"] == int(at):
+                try:
+                    from maestrowf.conductor import Conductor
+                    Conductor.mark_cancelled(out)
+                except Exception:
+                    with open(os.path.join(out, ".cancel.lock"), "a"):
+                        pass
+                with open(os.environ.get("E2E_MARK_LOG") or os.devnull, "a") as f:
+                    f.write("CANCELREQ %d\n" % st["k"])
+            st["k"] += 1
+        return inner(secs, *a, **k)
+    time.sleep = sleep
+
+
+def sub_cli(argv):
+    """sub-process: the real command line `maestro <argv>` (maestrowf.maestro.main), time.sleep stubbed by
+    harness/e2e_launcher.py; the recorder was injected by the sitecustomize module first on PYTHONPATH"""
+    import harness.e2e_launcher as L              # noqa: F401
+    install_cancel()
+    import maestrowf.maestro as m
+    if os.environ.get("C17P_CANCEL_AT", "").startswith("-"):
+        # a cancel request that is there BEFORE the first pass (`maestro run` wipes an existing output directory, so the
+        # request cannot precede it): made the way `maestro cancel` makes it, right after run_study has stored the study
+        # and its batch block -- the moment from which `maestro cancel <dir>` finds the directory
+        from maestrowf.conductor import Conductor
+        o_store = Conductor.store_batch
+
+        def store_batch(out_path, batch):
+            r = o_store(out_path, batch)
+            Conductor.mark_cancelled(out_path)
+            return r
+        Conductor.store_batch = staticmethod(store_batch)
+    sys.argv = ["maestro"] + list(argv)
+    m.main()
+    sys.exit(0)
 
 
 def sub_api(d, which):
@@ -474,6 +543,7 @@ def sub_api(d, which):
     if os.environ.get("C17P_FLUX"):
         install_flux(log)
     install_doors(log)
+    install_cancel()
     import logging
     logging.disable(logging.CRITICAL)
     case = json.load(open(os.path.join(d, "case.json")))
@@ -498,6 +568,8 @@ def sub_api(d, which):
         batch = dict(spec.batch)
         Conductor.store_study(study)
         Conductor.store_batch(out, batch)
+        if case.get("cancel_at") is not None and case["cancel_at"] < 0:
+            Conductor.mark_cancelled(out)          # the cancel request is there before the first pass
         conductor = Conductor(study)
         conductor.initialize(batch, 1)
         status = conductor.monitor_study()
@@ -551,8 +623,11 @@ def flux_read_allowed(e):
 def describe(which, case):
     how = ("`maestro run --dry -fg -y`" if which == "dry-cli" else "`maestro run -fg -y`" if which == "real-cli" else
            "Study.configure_study(dry_run=%s) + Conductor.monitor_study()" % which.startswith("dry"))
-    return "%s%s%s, batch %s" % (how, " --hashws" if case["hashws"] else "", " --usetmp" if case["usetmp"] else "",
-                                 json.dumps(case["batch"], sort_keys=True))
+    cat = case.get("cancel_at")
+    canc = "" if cat is None else (", cancel request (.cancel.lock, as `maestro cancel` writes it) %s"
+                                   % ("present before the first pass" if cat < 0 else "made after pass %d" % (cat + 1)))
+    return "%s%s%s%s, batch %s" % (how, " --hashws" if case["hashws"] else "", " --usetmp" if case["usetmp"] else "", canc,
+                                   json.dumps(case["batch"], sort_keys=True))
 
 
 def judge(case, d, res):
@@ -591,7 +666,20 @@ def judge(case, d, res):
                     info["witness"] = info["witness"] or {"run": describe(which, case), "call": e["door"][5:], "arg": e["cmd"], "by": e["by"]}
             if os.path.exists(os.path.join(d, which + ".ran.log")):
                 viol.append("the dry run (%s) executed step commands: %r" % (describe(which, case), read_lines(os.path.join(d, which + ".ran.log"))[:2]))
-            if r["rc"] != 0:
+            if case.get("cancel_at") is not None:
+                # a cancelled dry run: FINISHED (0) when the request came too late, else CANCELLED (3); nothing else is compared
+                fired = case["cancel_at"] < 0 or any(ln.startswith("CANCELREQ") for ln in read_lines(os.path.join(d, which + ".marks.log")))
+                info["cancel_fired"] = info.get("cancel_fired", 0) + int(fired)
+                want = (3,) if fired else (0,)
+                if r["rc"] not in want:
+                    viol.append("the dry run (%s) ended with exit/status %r, expected %r (%s): %s"
+                                % (describe(which, case), r["rc"], want[0], "the request was consumed" if fired else
+                                   "the run was over before the request", r["tail"][-500:]))
+                try:
+                    info["instances"] = len(e2e.parse_status(os.path.join(out, "status.csv")))
+                except Exception:
+                    pass
+            elif r["rc"] != 0:
                 viol.append("the dry run (%s) did not end successfully: exit/status %r: %s" % (describe(which, case), r["rc"], r["tail"][-500:]))
             else:
                 try:
@@ -618,10 +706,24 @@ def judge(case, d, res):
                             viol.append("%s: script file %s differs between the dry and the real run: %s"
                                         % (describe(which, case), k, first_diff(sd.get(k), sr.get(k))))
         else:
+            progs = [c.split(" ", 1)[0] for c in cmds]
+            if case.get("cancel_at") is not None:
+                if r["rc"] not in (0, 3):
+                    prob.append("the REAL run (%s) ended with rc=%r, neither FINISHED nor CANCELLED: %s" % (describe(which, case), r["rc"], r["tail"][-500:]))
+                    continue
+                ncan = sum(1 for p in progs if p in CANCEL_PROGS) + sum(1 for e in fl if e["door"] in ("flux:job.cancel", "flux:job.cancel_async"))
+                info["real_cancel_cmds"] = info.get("real_cancel_cmds", 0) + ncan
+                info["real_cmds"] += len(cmds)
+                info["real_doors"] += len(procs) + len(fl)
+                # jobs are in flight when the request made after the FIRST pass is found: the roots were just submitted
+                if case["cancel_at"] == 0 and case["adapter"] != "local" and case["steps"] and case["steps"][0]["scheduled"] \
+                        and not case["steps"][0]["deps"] and not ncan:
+                    prob.append("the monitor is not live: the REAL run (%s) recorded no cancel command (PATH: %r; in-process: %r)"
+                                % (describe(which, case), progs[:6], [e["door"] for e in (procs + fl)[:6]]))
+                continue
             if r["rc"] != 0:
                 prob.append("the REAL run (%s) did not finish with exit code 0 (rc=%r): %s" % (describe(which, case), r["rc"], r["tail"][-500:]))
                 continue
-            progs = [c.split(" ", 1)[0] for c in cmds]
             nsched = sum(1 for st in case["steps"] if st["scheduled"])
             info["real_cmds"] += len(cmds)
             info["real_doors"] += len(procs) + len(fl)
@@ -641,7 +743,7 @@ def judge(case, d, res):
 
 def slim(case):
     return {k: case.get(k) for k in ("kind", "adapter", "batch", "steps", "params", "attempts", "throttle", "rlimit", "hashws",
-                                     "usetmp", "shape", "env_flux_uri", "real")}
+                                     "usetmp", "shape", "env_flux_uri", "real", "cancel_at")}
 
 
 def run_cases(ck, cases, tag="C17_procs"):
@@ -672,7 +774,12 @@ def run_cases(ck, cases, tag="C17_procs"):
         for k in case["batch"]:
             dist["batch_key:" + k] += 1
         dist["batch:all_keys"] += int(all(k in case["batch"] for k, _ in BATCH_KEYS[case["adapter"]]))
-        dist["shape:" + ("split-level" if case.get("shape") == "split" else "corpus" if case.get("origin") else "generated")] += 1
+        dist["shape:" + ("split-level" if case.get("shape") == "split" else "corpus" if case.get("origin") else
+                         "cancel" if case.get("cancel_at") is not None else "generated")] += 1
+        if case.get("cancel_at") is not None:
+            dist["cancel_at:%+d" % case["cancel_at"]] += 1
+            dist["cancel_request_consumed_by_dry_runs"] += info.get("cancel_fired", 0)
+            dist["real_run_cancel_commands"] += info.get("real_cancel_cmds", 0)
         dist["launcher_steps"] += sum(1 for s in case["steps"] if s.get("launcher"))
         dist["scheduled_steps"] += sum(1 for s in case["steps"] if s["scheduled"])
         dist["real_run_scheduler_commands_on_PATH"] += info["real_cmds"]
@@ -699,6 +806,26 @@ def adapters_for(tier):
     return ad
 
 
+def gen_cancel_cases(rng, tier):
+    """a cancel request at some poll of the run, every back-end: before the first pass (-1), after pass 1 / 2 / 3 (0 / 1 / 2:
+    between passes, or -- for a dry run that is over by then -- never seen)"""
+    fv = flux_versions()
+    out = []
+    kinds = [("slurm", None), ("lsf", None), ("local", None)] + [("flux", v) for v in (fv if tier == "thorough" else fv[:1])]
+    for rep in range(1 if tier != "thorough" else 5):
+        for kind, ver in kinds:
+            for at in (-1, 0, 1) if rep == 0 else (rng.choice([-1, 0]), rng.choice([0, 1, 2])):
+                if kind != "local" and (at <= 0 or rng.random() < 0.5):
+                    c = gen_split_case(rng, kind, ver)            # two scheduled roots: jobs in flight after pass 1
+                else:
+                    c = gen_case(rng, rng.choice([1, 4]), [(kind, ver, False)])      # chain / layered shapes: several passes
+                    c["throttle"] = rng.choice([0, 1])
+                c["cancel_at"] = at
+                c["shape"] = "cancel"
+                out.append(c)
+    return out
+
+
 def corpus_cases(sub, kind=None):
     """corpus/C17/<sub>/*.json: stored witnesses (run first, every time)"""
     import glob
@@ -723,6 +850,7 @@ def run_procs(ck):
     fv = flux_versions()
     for r in range(1 if ck.tier != "thorough" else 8):
         cases += [gen_split_case(rng, "slurm"), gen_split_case(rng, "lsf")] + [gen_split_case(rng, "flux", v) for v in fv[:1 + r % 2]]
+    cases += gen_cancel_cases(rng, ck.tier)
     ck.cov["e2e_procs"] = run_cases(ck, cases)
     ck.cov["e2e_procs_rule"] = (
         "seeded studies with the REAL slurm / lsf / flux (fake in-memory bindings, every interface version) / local adapters and rich "
@@ -755,3 +883,5 @@ def replay_procs(ck, d):
 if __name__ == "__main__":
     if len(sys.argv) > 3 and sys.argv[1] == "api":
         sub_api(sys.argv[2], sys.argv[3])
+    elif len(sys.argv) > 2 and sys.argv[1] == "cli":
+        sub_cli(sys.argv[2:])
